@@ -8,6 +8,6 @@ CONSTANTS
   RampLens = {10, 11}
   ShiftHalves = {6}
   Elem <- ElemDef
-INVARIANTS NoUnderflow InRange ResultLaw EmitComposite
+INVARIANTS PwIsPow NoUnderflow InRange ResultLaw EmitComposite
 PROPERTY Terminates
 CHECK_DEADLOCK FALSE
